@@ -50,6 +50,9 @@ func init() {
 	addMask("forin", "C14-CONSOLE-ENUMERABLE", "G", "console")
 	addMask("dump-enumerable", "C14-CONSOLE-ENUMERABLE", "global.console", "global.console")
 
+	// o.eval(x) treated as a direct call
+	addMask("links", "C14-MEMBER-EVAL-DIRECT", "member-call-of-eval-is-indirect", "check")
+
 	// Number.isNaN coerces
 	addMask("extensions", "C14-EXT-NUMBER-ISNAN", "Number.isNaN", "call")
 }
